@@ -1418,7 +1418,7 @@ enum cc_stat cc_list_iter_add(CC_ListIter *iter, void *element)
 
     link_after(iter->last, new_node);
 
-    if (iter->index == iter->list->size)
+    if (!new_node->next)
         iter->list->tail = new_node;
 
     iter->list->size++;
@@ -1722,10 +1722,10 @@ enum cc_stat cc_list_zip_iter_add(CC_ListZipIter *iter, void *e1, void *e2)
     link_after(iter->l1_last, new_node1);
     link_after(iter->l2_last, new_node2);
 
-    if (iter->index == iter->l1->size)
+    if (!new_node1->next)
         iter->l1->tail = new_node1;
 
-    if (iter->index == iter->l2->size)
+    if (!new_node2->next)
         iter->l2->tail = new_node2;
 
     iter->l1->size++;
